@@ -261,7 +261,30 @@ def gen_history(seed):
             sts.append([v, k, o])
         return v
 
+    def has_each(v, seen=None):
+        """region of the registered finding each_copy_keeps_cached_groups: a copy of a (used) Each parses with the
+        ORIGINAL's sub-expressions - expressions containing an Each are never copied here (as in part B)"""
+        seen = seen if seen is not None else set()
+        if v in seen:
+            return False
+        seen.add(v)
+        st = next((x for x in prog + sts if x[0] == v), None)
+        if st is None:
+            return False
+        if st[1] in ("&", "Each"):
+            return True
+        return any(has_each(r, seen) for r in _refs(st)) or any(
+            has_each(x[3], seen) for x in prog + sts if x[1] == "<<=" and x[2] == v)
+
+    def no_each(o):
+        for _ in range(20):
+            if not has_each(o):
+                return o
+            o = operand()
+        return filler()
+
     def copy_of(o):
+        o = no_each(o)
         v = fresh()
         k = rng.choice(["copy", "call", "name", "set_results_name"])
         if k in ("copy", "call"):
@@ -285,6 +308,7 @@ def gen_history(seed):
         r = rng.random()
         if r < 0.30:
             o2 = fresh()
+            o = no_each(o)
             sts.append([o2, "copy", o] if r < 0.22 else [o2, "name", o, "k1"])
             if r < 0.10:
                 sts.append(["_", "action", o2, rng.choice([["app", "Z"], ["none"], ["dup"]])])
@@ -506,6 +530,25 @@ def all_objects(b):
     return [v for v in b.env.values() if isinstance(v, b.pp.ParserElement)]
 
 
+def _copies_an_each(prog):
+    """does the history copy (copy / expr() / expr('name') / set_results_name / leave_whitespace-copy) an expression
+    that contains an Each?  (region of the registered finding each_copy_keeps_cached_groups)"""
+    defs = {st[0]: st for st in prog if st[0] not in ("_", MUT)}
+    body = {}
+    for st in prog:
+        if st[1] == "<<=":
+            body.setdefault(st[2], []).append(st[3])
+    each = {v for v, st in defs.items() if st[1] in ("&", "Each")}
+    changed = True
+    while changed:
+        changed = False
+        for v, st in defs.items():
+            if v not in each and any(r in each for r in [x for x in _refs(st) if isinstance(x, str)] + body.get(v, [])):
+                each.add(v)
+                changed = True
+    return any(st[1] in _COPY_OPS and st[2] in each for st in defs.values())
+
+
 def hist_job(job):
     """worker: reference build (no in-place statements) vs test build; compares the fingerprint of every probe that is
     disjoint from the footprints. job: prog, seed [, only: [var, input]]"""
@@ -591,13 +634,18 @@ def hist_job(job):
         else:
             tie_post(b, "copy", b.env[var], src)
 
-    seen_mut = False
+    if _copies_an_each(prog):
+        out["skip"] = "region:each_copy_keeps_cached_groups"
+        return out
+    sh0, rewritten = Sharing(prog), set()
     for st in prog:
-        seen_mut = seen_mut or st[0] == MUT
-        if seen_mut and st[0] == "_" and st[1] == "use":
-            # parsing with the changed composite streamlines the ORIGINAL operands in the reference build and the
-            # copies leave_whitespace() put in their place in the test build: the two builds would no longer use the
-            # same objects at the same moments (and whatever depends on "had it been streamlined when ..." differs)
+        if st[0] == MUT and st[1] in ("lw_inplace", "iw_inplace"):
+            rewritten.add(st[2])
+        elif st[0] == "_" and st[1] == "use" and (sh0.shared(st[2]) & rewritten):
+            # parsing with a composite whose children leave_whitespace() has replaced by copies streamlines the
+            # ORIGINAL operands in the reference build and the copies in the test build: the two builds would no longer
+            # use the same objects at the same moments (and whatever depends on "had it been streamlined when ..."
+            # - e.g. add_parse_action on an And that a used composite has already flattened away - would differ)
             out["skip"] = "use-after-in-place(asymmetric schedule)"
             return out
     try:
